@@ -134,6 +134,21 @@ CHECKS["C25"] = dict(
    note="Trusted: Coq kernel; tools/py2coq.py; extraction. Four balancer defects repaired (extract, lshift, zeroext signed, strict moves); "
         "unsoundness with interval-annotated operands (wrap-around of moved constants, VSA answers) remains as known findings.")
 
+CHECKS["C13"] = dict(
+   text="Machine-checked proof (Coq) over Model/Replace.v (ReplacementFrontend with its default settings, substitution = C08's model of "
+        "replace_dict): by induction over every history of add(), the constraints held by the actual frontend have exactly the models "
+        "of what was added and every replacement is implied by them (C13_add, C13_history); every query is put to the actual frontend "
+        "about an expression with the asked expression's value in each such model (C13_query); the order of the pinned code is refuted "
+        "(C13_pinned_order_refuted, the repaired defect). Tie: the extracted model replays random add() sequences (with queries in "
+        "between) and must reproduce the real solver's actual constraints, replacement map and rewritten queries. Search: histories on "
+        "SolverReplacement (default / auto_replace off), SolverHybrid (default / approximate_first with exact=True) against enumeration "
+        "of 4096 assignments; pinned-variable scenarios; approximate modes (exact=False, approximate_first) on a fixed list of "
+        "histories for containment (eval, min/max, solution, satisfiable). The hybrid dispatch, complex_auto_replace and the "
+        "replacement cache are NOT modelled (testing only).",
+   design="5/C13", technique="Coq proof of the replacement invariant over histories; correspondence by extraction; histories against enumeration",
+   note="Trusted: Coq kernel; extraction; Z3 truthful. Two replacement-frontend defects repaired; one approximate-mode finding "
+        "(interval intersection) is known.")
+
 CHECKS["C12"] = dict(
    text="Machine-checked proof (Coq) of the principle SolverComposite rests on, for every set of constraint groups: if the groups share no "
         "variable, the whole is satisfiable iff every group is (C12_sat, by gluing assignments), and the values an expression takes over "
